@@ -88,6 +88,9 @@ SigmaWide == SigmaFull \o <<
   <<25, 128, 0>> \o Rep(7, 128), <<26, 1, 0, 0, 0, 7>>, <<25, 0, 128>>, <<23, 1, 97>>, <<27, 0>>, <<20>>, <<24>> >>
 SigmaMid == << <<64>>, <<65>>, <<66>>, <<67>>, <<68>>, <<16, 5>>, <<17, 5, 0>>, <<17, 128, 0>>, <<20, 1, 97>>, <<20, 1, 98>>, <<20, 0>>,
                <<21, 1, 0, 97>>, <<0>>, <<17, 128>>, <<24, 1, 170>>, <<70, 0, 0, 0, 0, 0, 0, 240, 63>> >>
+\* names only: duplicates / descending / prefix order need name,value,name,value = 4 tokens
+SigmaNames == << <<65>>, <<64>>, <<66>>, <<67>>, <<16, 5>>, <<20, 0>>, <<20, 1, 97>>, <<20, 1, 98>>, <<20, 2, 97, 97>>, <<20, 1, 0>>,
+                 <<20, 1, 128>>, <<20, 2, 97, 0>>, <<21, 128, 0>> \o Rep(97, 128) >>
 MaxDs123 == {1, 2, 3}
 MaxDs2 == {2}
 MaxDsDeep == {1, 2, 3, 10, 255}
